@@ -325,6 +325,24 @@ class World:
             probs.append(problem("operation_raised", case, expected="no exception", observed=repr(e),
                                  op=kind, exc=type(e).__name__))
             return probs
+        # the forest must still be a forest: no node listed twice, no cycle (a shared child list would break both)
+        seen_ids = set()
+        stack = [h for i_, h in enumerate(H) if self.alive[i_] and not any(h is c_ for p_ in H for c_ in p_.children)]
+        listed = {}
+        for p_ in H:
+            for c_ in p_.children:
+                listed[id(c_)] = listed.get(id(c_), 0) + 1
+        if any(v > 1 for v in listed.values()) or (not stack and any(self.alive)):
+            probs.append(problem("structure_corrupted", case, expected="every node listed by at most one parent, no cycles",
+                                 observed="a node is listed twice or the forest has no root", op=kind))
+            return probs
+        while stack:
+            x_ = stack.pop()
+            if id(x_) in seen_ids:
+                probs.append(problem("structure_corrupted", case, expected="no cycles", observed="cycle through " + x_.name, op=kind))
+                return probs
+            seen_ids.add(id(x_))
+            stack.extend(x_.children)
         # invariants (after a cycle collection when some nodes are referenced by nothing but the registry: a
         # parent<->child cycle keeps them alive until then; everything allocated before is frozen, so this is cheap)
         if self.forgotten and case:
@@ -372,11 +390,17 @@ class World:
 
 def replay_history(history):
     w = World()
-    for op in history:
-        pr = w.step(op, {})
+    for i, op in enumerate(history):
+        pr = w.step(op, {"history": history[:i], "op": op, "config": {"cap": 0}} if i else {})
         if pr:
-            raise core.HarnessError(f"history prefix violated the step relation at {op}: {pr[0]['sig']}")
+            raise PrefixFailed(pr)
     return w
+
+
+class PrefixFailed(Exception):
+    """a prefix that satisfied the step relation when first explored fails now: state kept by the library between histories"""
+    def __init__(self, probs):
+        self.probs = probs
 
 
 _FROZEN = []
@@ -389,11 +413,18 @@ def expand(item):
         gc.freeze()
         _FROZEN.append(1)
     config, history = item
-    w = replay_history(history)
+    try:
+        w = replay_history(history)
+    except PrefixFailed as e:
+        return {"key": None, "state_probs": e.probs, "n_state_checks": 0, "succ": []}
     key = w.canon()
     succ = []
     for op in w.enabled(config["cap"]):
-        w2 = replay_history(history)
+        try:
+            w2 = replay_history(history)
+        except PrefixFailed as e:
+            succ.append((op, None, e.probs, "prefix:violation"))
+            continue
         case = {"config": config, "history": history, "op": op}
         probs = w2.step(op, case)
         if probs:
@@ -404,7 +435,10 @@ def expand(item):
 
 
 def replay(case):
-    w = replay_history(case["history"])
+    try:
+        w = replay_history(case["history"])
+    except PrefixFailed as e:
+        return e.probs
     return w.step(case["op"], case)
 
 
